@@ -589,6 +589,11 @@ impl Prop for C18 {
         // ---- no panic of its own
         let (rows, cols, flat) = match out.result {
             Ok(t) => t,
+            // a map that returned NaN/Inf (injected) may be refused loudly; what must not happen is a wrong matrix
+            Err(_) if !case.faults.is_empty() && out.hist.calls > 0 => {
+                stats.count("outcome.refused_loudly_after_nonfinite_callback_value");
+                return Ok(());
+            }
             Err(msg) => {
                 let mm = normalise_panic(&msg);
                 return violation("panic", &panic_key(fname, &mm), format!("{fname} of a map R^{n} -> R^{m} (delta={:e}) panicked: {mm}", case.delta));
